@@ -331,6 +331,9 @@ func buildInputs(repo, tier string, seed uint64, bigMode string) ([]Input, map[s
 			}
 		}
 	}
+	// far beyond the parser's nesting limit: must be an ordinary, cheap parse error
+	add("deep-paren", []byte(deepInput("paren", 3000000)), "3000000")
+	add("deep-list", []byte(deepInput("list", 3000000)), "3000000")
 	if tier != "quick" {
 		// witness of known finding F-C02-2 (about 25 s of CPU until the worker dies)
 		add("deep-field-chain", []byte(deepInput("field-chain", 400000)), "400000")
